@@ -61,8 +61,7 @@ def unhx(s):
 
 
 # ------------------------------------------------------------------ harness I/O
-def run_cases(binary, cases, timeout=600, args=()):
-    """cases: list of (id, [command lines]).  Returns {id: [output lines]} (with 'crash ...' lines)."""
+def _run_cases_one(binary, cases, timeout, args):
     inp = []
     for cid, lines in cases:
         inp.append("case %s" % cid)
@@ -81,6 +80,21 @@ def run_cases(binary, cases, timeout=600, args=()):
         elif cur is not None:
             out[cur].append(line)
     return out, p.stderr
+
+
+def run_cases(binary, cases, timeout=600, args=(), jobs=1):
+    """cases: list of (id, [command lines]).  Returns {id: [output lines]} (with 'crash ...' lines).
+    jobs > 1: the cases (each runs in its own forked child anyway) are spread over that many harness processes."""
+    if jobs <= 1 or len(cases) < 2 * jobs:
+        return _run_cases_one(binary, cases, timeout, args)
+    from concurrent.futures import ThreadPoolExecutor
+    chunks = [cases[k::jobs] for k in range(jobs)]
+    out, errs = {}, []
+    with ThreadPoolExecutor(max_workers=jobs) as ex:
+        for o, e in ex.map(lambda ch: _run_cases_one(binary, ch, timeout, args), chunks):
+            out.update(o)
+            errs.append(e)
+    return out, "".join(errs)
 
 
 def _big_stack():
